@@ -29,6 +29,13 @@ func HTMLSoup() *rapid.Generator[[]byte] {
 				// a tag with a name of drawn length (open, closing, or unfinished)
 				l := rapid.IntRange(1, 80).Draw(t, "namelen")
 				name := bytes.Repeat([]byte{"aSx-"[rapid.IntRange(0, 2).Draw(t, "namech")]}, l)
+				// characters that HTML allows in a tag name after its first letter
+				// although CommonMark's inline tags do not (they occur in HTML blocks)
+				for k, n := 0, rapid.IntRange(0, 3).Draw(t, "odd"); k < n && l > 1; k++ {
+					odd := []string{"_", "[", "]", "\\", "^", "@", ".", ":", "é", "İ", "\x01", "Z", "9"}[rapid.IntRange(0, 12).Draw(t, "oddch")]
+					at := rapid.IntRange(1, l-1).Draw(t, "oddat")
+					name = append(append(append([]byte{}, name[:at]...), odd...), name[at:]...)
+				}
 				out = append(out, []string{"<", "</", "<"}[rapid.IntRange(0, 2).Draw(t, "open")]...)
 				out = append(out, name...)
 				out = append(out, []string{">", " x>", "\n", "<"}[rapid.IntRange(0, 3).Draw(t, "close")]...)
